@@ -416,7 +416,7 @@ func init() {
 	core.Register(&core.Prop{
 		ID:    "C13",
 		Level: "exploration",
-		Rule:  "configurations: node pool {on, off, emptied before every Read, Get always fresh, Get oldest} x transform-result cache {on, off} x xpath cache {default, capacity 1} x JavaScript {all on, all disabled, program cache capacity 1, node-JSON cache capacity 1 and purged before every Read, VM pool always fresh} - all 99 non-default combinations in the thorough tier, 15 (every single deviation plus mixed corners) in the quick tier; corpus: 11 multi-record jobs over all formats (templates, xpath_dynamic, javascript, copy), javascript_with_context on ancestors (XML and JSON), an argument-leak probe, many dynamic xpaths, and every C02 'same declaration at two positions / shared template / dynamic-and-member' declaration set on a 6-record XML input; the Read transcript (bytes, checksums, errors) under every configuration must equal the all-enabled transcript; distinct by (configuration, job); further jobs: scripts with top-level declarations, undeclared assignments, changes to the global object (known finding: changes to builtin objects), nested argument parts changed in place, data-driven call depth, twin declarations differing in one attribute, C02 level G; jobs with continuable reader failures between good records",
+		Rule:  "configurations: node pool {on, off, emptied before every Read, Get always fresh, Get oldest} x transform-result cache {on, off} x xpath cache {default, capacity 1} x JavaScript {all on, all disabled, program cache capacity 1, node-JSON cache capacity 1 and purged before every Read, VM pool always fresh} - all 99 non-default combinations in the thorough tier, 15 (every single deviation plus mixed corners) in the quick tier; plus the node-ID environment (input delivered byte by byte, the process-wide ID counter moved to call*2^32 at every call of the input reader, compared with the same delivery and an untouched counter: IDs must only be unique, their values invisible) alone and with pool settings; corpus: 11 multi-record jobs over all formats (templates, xpath_dynamic, javascript, copy), javascript_with_context on ancestors (XML and JSON), an argument-leak probe, many dynamic xpaths, and every C02 'same declaration at two positions / shared template / dynamic-and-member' declaration set on a 6-record XML input; the Read transcript (bytes, checksums, errors) under every configuration must equal the all-enabled transcript; distinct by (configuration, job); further jobs: scripts with top-level declarations, undeclared assignments, changes to the global object (known finding: changes to builtin objects), nested argument parts changed in place, data-driven call depth, twin declarations differing in one attribute, C02 level G; jobs with continuable reader failures between good records",
 		Assumptions: []string{
 			"the caches are switched through the library's own test switches (exposed by //go:build verif hook files added by the overlay) and its exported cache variables; the per-record transform cache switch is installed by an overlay rewrite of NewParseCtx",
 		},
